@@ -10,6 +10,7 @@ package main
 // rulio function (VTA call graph).  Reports are raised at entry points.
 
 import (
+	"go/token"
 	"go/types"
 	"sort"
 
@@ -112,6 +113,11 @@ func (g *gateEngine) deriveWrappers(scope func(*ssa.Function) bool) []string {
 
 // passEdgeFilter deletes the pass edges of the gate tests in fn.
 func (g *gateEngine) passEdgeFilter(fn *ssa.Function) (edgeFilter, int) {
+	return g.passEdgeFilterIf(fn, nil)
+}
+
+// passEdgeFilterIf: only the gate calls that `accept` says yes to count (nil: all of them).
+func (g *gateEngine) passEdgeFilterIf(fn *ssa.Function, accept func(c *ssa.Call) bool) (edgeFilter, int) {
 	type edge struct {
 		b *ssa.BasicBlock
 		i int
@@ -131,7 +137,7 @@ func (g *gateEngine) passEdgeFilter(fn *ssa.Function) (edgeFilter, int) {
 			continue
 		}
 		for _, gs := range g.gate {
-			isCall := func(c *ssa.Call) bool { return gs.IsGate(c.Common()) }
+			isCall := func(c *ssa.Call) bool { return gs.IsGate(c.Common()) && (accept == nil || accept(c)) }
 			if !derivesFromCall(ct.V, isCall, gs.Idx) {
 				continue
 			}
@@ -369,4 +375,105 @@ func (a *locAnchors) roots() []*ssa.Function {
 	}
 	sort.Slice(out, func(i, j int) bool { return out[i].String() < out[j].String() })
 	return out
+}
+
+// ---- whose gate? ---------------------------------------------------------------------------
+
+type subjectMiss struct {
+	fn    *ssa.Function
+	where string
+	gate  string
+	call  string
+}
+
+// subjectOf names the location a call is made on, when that is a parameter or a captured variable of the function
+// (the two cases in which two different names are two different locations as far as the function knows).
+func subjectOf(c *ssa.CallCommon, loc *types.Named) ssa.Value {
+	if c.IsInvoke() || len(c.Args) == 0 || c.StaticCallee() == nil || c.StaticCallee().Signature.Recv() == nil {
+		return nil
+	}
+	if namedOf(c.Args[0].Type()) != loc {
+		return nil
+	}
+	v := resolveSpill(c.Args[0])
+	if u, ok := v.(*ssa.UnOp); ok && u.Op == token.MUL {
+		if fv, isF := u.X.(*ssa.FreeVar); isF {
+			for _, ref := range *fv.Referrers() {
+				if st, isS := ref.(*ssa.Store); isS && st.Addr == ssa.Value(fv) {
+					return nil
+				}
+			}
+			return fv
+		}
+	}
+	switch v.(type) {
+	case *ssa.Parameter, *ssa.FreeVar:
+		return v
+	}
+	return nil
+}
+
+// subjectMismatches: a call on one location that lies behind a gate (it cannot be reached once the pass edges of all
+// gates are deleted) and whose callee is exposed by itself, but which can be reached when only the gates asked of THAT
+// location are deleted: the only gate in front of it was asked of another location.
+func (g *gateEngine) subjectMismatches(loc *types.Named) (oks int, bad []subjectMiss) {
+	g.solve()
+	for _, fn := range g.w.Funcs {
+		if g.skip != nil && g.skip(fn) {
+			continue
+		}
+		efAll, nt := g.passEdgeFilter(fn)
+		if nt == 0 {
+			continue
+		}
+		reachAll := blocksReachable(fn, efAll)
+		for _, b := range fn.Blocks {
+			if reachAll[b] {
+				continue
+			}
+			for _, in := range b.Instrs {
+				ci, ok := in.(ssa.CallInstruction)
+				if !ok {
+					continue
+				}
+				subj := subjectOf(ci.Common(), loc)
+				if subj == nil {
+					continue
+				}
+				isG := false
+				for _, gs := range g.gate {
+					if gs.IsGate(ci.Common()) {
+						isG = true
+					}
+				}
+				if isG {
+					continue
+				}
+				exposed := false
+				for _, c := range g.w.Callees(ci) {
+					if e := g.memoExpose[c]; e != nil && e.exposed {
+						exposed = true
+					}
+				}
+				if !exposed {
+					continue
+				}
+				gateName := ""
+				efOwn, _ := g.passEdgeFilterIf(fn, func(c *ssa.Call) bool {
+					gsub := subjectOf(c.Common(), loc)
+					if gsub == nil || gsub == subj {
+						return true
+					}
+					gateName = c.Common().StaticCallee().Name()
+					return false
+				})
+				if blocksReachable(fn, efOwn)[b] {
+					bad = append(bad, subjectMiss{fn, g.w.PosOf(in), gateName, ci.Common().StaticCallee().Name()})
+				} else {
+					oks++
+				}
+			}
+		}
+	}
+	return
 }
